@@ -84,6 +84,28 @@ def _validate(ck, sw, name, beh, label, mode="", seed=1):
     return bads
 
 
+def _ctorfail(ck, sw):
+    trace = os.path.join(ck.work, "trace_ctorfail.ndjson")
+    label = "constructor failure points (vm.max_map_count)"
+    try:
+        summ, out = vlib.run_replay(["mirror", "-mode", "ctorfail", "-out", trace], timeout=300, check=False)
+    except vlib.Inconclusive as e:
+        summ, out = None, str(e)
+    if not summ:
+        ck.cov["ctor_failure_probe"] = {"status": "unavailable", "detail": out[-400:]}
+        return
+    bads, r = vlib.validate_trace(sw, "MirrorMonTrace", "MirrorMonTrace.cfg", trace, timeout=300, parallel=1)
+    ck.cov["ctor_failure_probe"] = dict(summ.get("notes") or {}, status="ran", calls=summ["scenarios"],
+                                        rejected=len(bads))
+    ck.cov["evaluations"] += summ["scenarios"]
+    ck.cov["traces_validated_against_impl"] += summ["scenarios"] - len({b[0] for b in bads})
+    for sid, i, key in bads:
+        ck.report_bad(key, "constructor call %d of the failure-point probe left something behind (%s)" % (sid, label),
+                      lambda sid=sid, i=i, key=key: {
+                          "property": ck.pid, "component": "mirror", "rule": key, "step": i, "mode": "ctorfail",
+                          "behaviour": [], "trace": vlib.read_scenario(trace, sid)})
+
+
 def _req(size, cls):
     """requested size (units) of a request class; all of them round up to `size`"""
     return {0: size, 1: size - 1, 2: size - P + 1, 3: size - 2}[cls]
@@ -128,23 +150,25 @@ def run(ck):
                       mode="jitter+fill", seed=ck.seed * 100000)
         os.remove(beh)
 
-    def sim(k, pages, sub, pf, num, depth):
-        size = pages * 4096
-        consts = {"Page": 4096, "Req": size - sub, "Pf": pf, "Few": 3000, "AllAmounts": "FALSE",
-                  "BUG_Mask": "FALSE", "MaxHist": depth}
+    def sim(k, pages, sub, pf, num, depth, page=4096):
+        """seeded random histories: at byte scale (page = 4096, the seven amounts) or at unit scale (all amounts)"""
+        size = pages * page
+        consts = {"Page": page, "Req": size - sub, "Pf": pf, "Few": 3000 if page == 4096 else 3,
+                  "AllAmounts": "FALSE" if page == 4096 else "TRUE", "BUG_Mask": "FALSE", "MaxHist": depth}
         cfg = vlib.cfg_with(sw, "MirrorImpl_sim.cfg", consts)
         r = vlib.tlc(sw, "MirrorImpl", cfg, workers=1, simulate=num, depth=depth + 2,
                      seed=ck.seed * 1000 + k, timeout=2400)
         if r.violated or (r.error and "timeout" in r.error):
             raise vlib.Inconclusive("MirrorImpl simulation %s: %s\n%s" % (consts, r.violated or r.error, r.tail()))
-        ck.add_tlc("MirrorImpl random simulation (byte scale)", r, consts, exhaustive=False)
+        ck.add_tlc("MirrorImpl random simulation (%s scale)" % ("byte" if page == 4096 else "unit"), r, consts,
+                   exhaustive=False)
         beh = os.path.join(ck.work, "sim_%d.jsonl" % k)
         n = vlib.edges_to_file(r, beh)
         os.remove(r.outpath)
         if n == 0:
             raise vlib.Inconclusive("simulation produced no histories\n" + r.tail())
-        _validate(ck, sw, "sim_%d" % k, beh, "random byte-level histories, %d pages, request %d, prefault %d" % (
-            pages, size - sub, pf))
+        _validate(ck, sw, "sim_%d" % k, beh, "random %s histories, %d pages, request %d, prefault %d" % (
+            "byte-level" if page == 4096 else "unit-level (all amounts)", pages, size - sub, pf))
         os.remove(beh)
 
     def buggy(pages):
@@ -165,6 +189,12 @@ def run(ck):
         if r.violated:
             model_findings["C11/position/%d" % pages] = "BUG_Mask=TRUE, %d pages (model only)" % pages
 
+    def ctorfail():
+        """failure points of the constructor (own process: the probe sits at vm.max_map_count for a moment;
+        if it cannot run, that is recorded and nothing else)"""
+        _ctorfail(ck, sw)
+
+    jobs.append((ctorfail, ()))
     pages_list = [1, 2, 3, 4, 5, 6, 8]
     s = ck.seed
     if quick:
@@ -179,6 +209,9 @@ def run(ck):
         subs = [1, 4095, 1000, 0, 2048, 4000, 96]
         for j, pg in enumerate(pages_list):
             jobs.append((sim, (j, pg, subs[(s + j) % len(subs)], (s + j) % 2, 300, 40)))
+        # unit-scale random walks with all amounts (reach what shortest paths never do, e.g. Reset after commits)
+        jobs.append((sim, (100, [3, 5, 6][s % 3], 0, 0, 300, 40, P)))
+        jobs.append((sim, (101, [1, 2, 4, 8][s % 4], 1, 1, 300, 40, P)))
         jobs += [(buggy, (pg,)) for pg in (3, 4)]
     else:
         for j, pg in enumerate(pages_list + [7, 12, 16]):
@@ -195,6 +228,8 @@ def run(ck):
             for t in range(2):
                 jobs.append((sim, (k, pg, subs[(s + j + 3 * t) % len(subs)], t, 3000, 80)))
                 k += 1
+        for j, pg in enumerate(pages_list + [7, 12, 16]):
+            jobs.append((sim, (100 + j, pg, (s + j) % 3, (s + j) % 2, 2000, 80, P)))
         jobs += [(buggy, (pg,)) for pg in (1, 2, 3, 4, 5, 6, 7, 8, 12)]
 
     # additional evidence, never a verdict: Apalache proves the index machines' invariants inductive for
@@ -220,6 +255,7 @@ def run(ck):
         "memory contents are not part of the model; on recorded traces every claimed byte is tagged with its stream index modulo 251 and the ring is projected to runs of successive tokens",
         "claim offsets are pointer differences against the first claim (of Size() bytes, not committed) on the fresh buffer",
         "mappings are attributed to a buffer by the name of its backing file in /proc/self/maps",
+        "constructor failure points are provoked by bringing the process to vm.max_map_count with single-page mappings; which point a call hits depends on VMA merging; leftovers are attributed by file name, anonymous ones only for buffers of >= 3 pages",
         "coverage.apalache (inductive invariants of typed index machines for unbounded sizes) is additional evidence only; its outcome never enters the verdict",
     ]
 
@@ -229,6 +265,9 @@ def replay(ck, path):
     sw = vlib.prep_spec("Mirror", ck.work)
     ck.cov["probes"] = {}
     obj = json.load(open(path))
+    if obj.get("mode") == "ctorfail":
+        _ctorfail(ck, sw)
+        return
     beh = os.path.join(ck.work, "replay.jsonl")
     with open(beh, "w") as f:
         f.write(json.dumps(obj["behaviour"]) + "\n")
